@@ -533,4 +533,4 @@ fn usize_to_f32(n: usize) -> f32 {
 
 #[cfg(kani)]
 #[path = "/verif/kani/similarity.rs"]
-mod verif_kani;
+pub(crate) mod verif_kani;
